@@ -107,6 +107,8 @@ def build_tasks(tier, seed):
         tasks.append((('mink',), p, False, True, (16, 32), seed))
         tasks.append((('mink',), p, False, False, (16, 32), seed))
         tasks.append((('ds',), p, True, False, (14, 20), seed))
+        # vacuum option ('no matter') together with a cosmological constant
+        tasks.append((('ds',), p, False, True, (14, 20), seed))
     tasks.append((('schw',), 4, True, False, (16, 32), seed))
     tasks.append((('schw',), 4, False, True, (16, 32), seed))
     return tasks
